@@ -949,7 +949,7 @@ def gen_cases(rng, tier):
                 kinds = rng.sample(singles, 2) + [rng.choice(["sys_ode", "sys_statio", "sys_nonstatio"])]
             for kind in kinds:
                 base = kind.replace("sys_", "")
-                B = rng.choice([2, 4]) if sub else rng.choice([1, 2, 4])
+                B = rng.choice([1, 2, 4])      # (a parameter batch of exactly one row is a batch too)
                 terms = {"dyn": True, "ic": base != "statio", "boundary": base != "ode" and rng.random() < 0.6,
                          "norm": base != "ode" and rng.random() < 0.6}
                 obs = None
